@@ -126,7 +126,7 @@ fn for_each_f64(nrand: u64, mut f: impl FnMut(f64)) {
 //@harness c12_native_try_from_secs_f32_all
 //@target SignedDuration::try_from_secs_f32 (src/signed_duration.rs), std build
 //@prop C12 C05
-//@tier quick
+//@tier thorough
 //@mode native
 //@timeout 1500
 //@bounded ALL 2^32 f32 bit patterns (exhaustive for this function), std-feature build, release profile
